@@ -159,8 +159,28 @@ def builddir_shapes():
     ])]
 
 
+def regen_scenario(tier):
+    """The manifest is itself an output (generator statement copying build.ninja.in): a dry run with an out-of-date manifest."""
+    def regen(name, ver):
+        return Variant(name, [Stmt("build.ninja", ex=["build.ninja.in"], generator=True, copy=True),
+                              Stmt("a", ex=["s"], ver=ver), Stmt("b", ex=["a"])], defaults=["b"])
+    va, vb = regen("m0", 0), regen("m1", 1)
+    ops = [{"op": "touch", "path": "build.ninja.in", "label": "touch build.ninja.in"},
+           {"op": "write", "path": "build.ninja.in", "content": vb.manifest(), "label": "build.ninja.in:=m1"},
+           {"op": "edit", "path": "s", "label": "edit s"}, {"op": "rm", "path": "a", "label": "rm a"},
+           ninja_op(j=2)]
+    tools = [ninja_op(j=2, flags=["-n"], dry_run=True, label="ninja -j2 -n"),
+             ninja_op(targets=["a"], j=1, flags=["-n"], dry_run=True, label="ninja -j1 -n a")]
+    t = tool_op("commands", ["-t", "commands"]); t["tool_args"] = []
+    tools.append(t)
+    for t in tools:
+        t["no_expand"] = True
+    return scenario("c19/manifest_regen", "c19", [va, vb], files={"build.ninja.in": va.manifest(), "s": "s-v0\n"}, ops=ops + tools,
+                    init=[4], depth=3 if tier == "quick" else 4, tags=["readonly", "manifest-regen"])
+
+
 def readonly_scenarios(tier="quick"):
-    T = []
+    T = [regen_scenario(tier)]
     for name, variants in shapes() + builddir_shapes():
         if name == "two_dyndep":
             continue   # C19 is stated for graphs without pending dyndep files
